@@ -43,6 +43,9 @@ package actor
 //@ spec func rr_slot(next uint32, n int) int = int(next) % n
 
 //@ ghost var tells int
+//@ ghost local fan_n int
+// (fan-out: one goroutine per routee, each telling that routee)
+//@ structural mustcall (*router).routeByStrategy$1: (*PID).Tell
 
 //@ func (*router).routeByStrategy(x, ctx, msg, routees)
 //@   arith int
@@ -50,7 +53,11 @@ package actor
 //@   at call 1 of (*ReceiveContext).Tell assert rr-target: arg1 == routees[rr_slot(old(x.roundRobinNext), len(routees))]
 //@   at call 1 of (*ReceiveContext).Tell ghost tells = tells + 1
 //@   at call 2 of (*ReceiveContext).Tell ghost tells = tells + 1
+//@   ghost entry fan_n = 0
+//@   at call 1 of (*router).routeByStrategy$1 ghost fan_n = fan_n + 1
 //@   loop 1 invariant bounds: -1 <= rangeindex && (rangeindex == -1 || rangeindex < len(routees))
+//@   loop 1 invariant one-send-per-routee-so-far: fan_n == rangeindex + 1
+//@   ensures fan-out-sends-one-per-routee: old(x.routingStrategy) != RoundRobinRouting && old(x.routingStrategy) != RandomRouting && old(x.routingStrategy) != ConsistentHashRouting ==> fan_n == len(routees)
 //@   ensures rr-slot-in-range: old(x.routingStrategy) == RoundRobinRouting ==> 0 <= rr_slot(x.roundRobinNext, len(routees)) && rr_slot(x.roundRobinNext, len(routees)) < len(routees)
 //@   ensures rr-cyclic-order: old(x.routingStrategy) == RoundRobinRouting ==> rr_slot(x.roundRobinNext, len(routees)) == (rr_slot(old(x.roundRobinNext), len(routees)) + 1) % len(routees)
 //@   ensures rr-sends-exactly-one: old(x.routingStrategy) == RoundRobinRouting ==> tells == old(tells) + 1
